@@ -237,13 +237,20 @@ def closure_is_equality(cr, clo, st, a):
 def receiver_field(cr, f, operand):
     from rules.c08 import def_of_local
     pl = M.op_place(operand)
-    for _ in range(4):
+    for _ in range(10):
         if pl is None:
             return None
         if not isinstance(pl, int):
             names = [pr[2] for pr in M.place_projs(pl) if isinstance(pr, list) and pr[0] == "f" and pr[2]]
+            if not names and all(pr == "*" or pr == ["*"] for pr in M.place_projs(pl)):
+                pl = M.place_local(pl)      # a plain reborrow `&*_5`
+                continue
             return names[-1] if names else None
         d = def_of_local(f, pl)
+        if d and d[0] == "call" and d[2]["args"] and M.norm_path(d[2]["fn"].get("decl", "")) in (
+                "std::ops::Deref::deref", "std::ops::DerefMut::deref_mut", "std::convert::AsRef::as_ref", "std::borrow::Borrow::borrow"):
+            pl = M.op_place(d[2]["args"][0])        # `self.field.iter()`: the slice comes from <Vec as Deref>::deref(&self.field)
+            continue
         if not d or d[0] != "stmt":
             return None
         rv = d[2]["rv"]
